@@ -69,5 +69,5 @@ Example C03_example :
 Proof.
   split; [|vm_compute; reflexivity]. split.
   - repeat constructor; simpl; intuition discriminate.
-  - intros n [<-|[<-|[]]]; split; try reflexivity; vm_compute; intros H; repeat (destruct H as [H|H]; [discriminate|]); exact H.
+  - intros n [<-|[<-|[]]]; split; try reflexivity; intros H; apply smem_in in H; vm_compute in H; discriminate.
 Qed.
